@@ -265,33 +265,28 @@ func (rsc *service) updatePodGPUGroup(
 }
 
 func (rsc *service) RemovePodGpuGroupsConnection(ctx context.Context, pod *v1.Pod) error {
-	var patch []map[string]string
+	// A merge patch that nulls the labels: unlike a JSON-patch "remove" it does not fail - and take the removal
+	// of the other labels down with it - when the in-memory pod carries a label the server never got
+	// (the patch that was adding it is the call that failed).
+	labels := map[string]interface{}{}
 	for labelKey := range pod.Labels {
 		if labelKey == constants.GPUGroup || strings.HasPrefix(labelKey, constants.MultiGpuGroupLabelPrefix) {
-			patch = append(patch, map[string]string{
-				"op":   "remove",
-				"path": fmt.Sprintf("/metadata/labels/%s", escapeJSONPointer(labelKey)),
-			})
+			labels[labelKey] = nil
 		}
 	}
+	if len(labels) == 0 {
+		return nil
+	}
 
-	patchBytes, err := json.Marshal(patch)
+	patchBytes, err := json.Marshal(map[string]interface{}{"metadata": map[string]interface{}{"labels": labels}})
 	if err != nil {
 		return fmt.Errorf("failed to generate a patch for pod gpu-group removal. %w", err)
 	}
 
-	if err := rsc.kubeClient.Patch(ctx, pod, client.RawPatch(types.JSONPatchType, patchBytes)); err != nil {
+	if err := rsc.kubeClient.Patch(ctx, pod, client.RawPatch(types.MergePatchType, patchBytes)); err != nil {
 		return err
 	}
 	return nil
-}
-
-// escapeJSONPointer escapes a string for use in a JSON Pointer path (RFC 6901).
-// ~ must be escaped as ~0, and / must be escaped as ~1.
-func escapeJSONPointer(s string) string {
-	s = strings.ReplaceAll(s, "~", "~0")
-	s = strings.ReplaceAll(s, "/", "~1")
-	return s
 }
 
 func (rsc *service) acquireGPUIndexByGroup(ctx context.Context, nodeName, gpuGroup string) (string, error) {
